@@ -137,7 +137,7 @@ def stmts_of(path):
     def walk(node, prefix):
         for ch in getattr(node, "body", []):
             if isinstance(ch, (ast.FunctionDef, ast.AsyncFunctionDef)):
-                res[prefix + ch.name] = [(_stmt_key(st),) + _header_span(st) for st in _stmts(ch)]
+                res[prefix + ch.name] = [(_stmt_key(st),) + _header_span(st) + (type(st).__name__,) for st in _stmts(ch)]
             elif isinstance(ch, ast.ClassDef):
                 walk(ch, prefix + ch.name + ".")
 
@@ -175,11 +175,11 @@ def new_statements(changed):
             if quals is not None and q not in quals:
                 continue
             have = list(base.get(f, {}).get(q, []))
-            for key, lo, hi in sts:
+            for key, lo, hi, kind in sts:
                 if key in have:
                     have.remove(key)
                     continue
-                out.append({"file": f, "path": path, "qualname": q, "line": lo, "end": hi,
+                out.append({"file": f, "path": path, "qualname": q, "line": lo, "end": hi, "kind": kind,
                             "src": lines[lo - 1].strip()[:160] if 0 < lo <= len(lines) else ""})
     return out
 
@@ -211,20 +211,40 @@ class Coverage:
         fd = os.open(self.log, os.O_WRONLY | os.O_CREAT | os.O_TRUNC | os.O_APPEND, 0o644)
         want = self.want
         cache = {}
+        armed = set()
+        seen_br = set()
+
+        def on_branch(code, src, dst):
+            k = (id(code), src, dst)
+            if k not in seen_br:
+                seen_br.add(k)
+                try:
+                    os.write(fd, f"B|{os.path.realpath(code.co_filename)}|{code.co_qualname}|{code.co_firstlineno}|{src}|{dst}\n".encode())
+                except OSError:
+                    pass
 
         def on_line(code, line):
             f = code.co_filename
             w = cache.get(f, 0)
             if w == 0:
                 w = cache[f] = want.get(os.path.realpath(f)) if f and not f.startswith("<") else None
-            if w is not None and line in w:
-                try:
-                    os.write(fd, f"{os.path.realpath(f)}:{line}\n".encode())
-                except OSError:
-                    pass
+            if w is not None:
+                if id(code) not in armed:
+                    armed.add(id(code))
+                    try:
+                        if any(l in w for _, _, l in code.co_lines() if l):
+                            mon.set_local_events(self.TOOL, code, mon.events.BRANCH)
+                    except Exception:
+                        pass
+                if line in w:
+                    try:
+                        os.write(fd, f"{os.path.realpath(f)}:{line}\n".encode())
+                    except OSError:
+                        pass
             return mon.DISABLE
 
         mon.register_callback(self.TOOL, mon.events.LINE, on_line)
+        mon.register_callback(self.TOOL, mon.events.BRANCH, on_branch)
         mon.set_events(self.TOOL, mon.events.LINE)
         self.active = True
 
@@ -235,6 +255,7 @@ class Coverage:
         mon = sys.monitoring
         mon.set_events(self.TOOL, 0)
         mon.register_callback(self.TOOL, mon.events.LINE, None)
+        mon.register_callback(self.TOOL, mon.events.BRANCH, None)
         mon.free_tool_id(self.TOOL)
         self.active = False
 
@@ -246,10 +267,63 @@ class Coverage:
             return None
         hit = {}
         for l in open(self.log):
+            if l.startswith("B|"):
+                continue
             f, _, n = l.strip().rpartition(":")
             if n.isdigit():
                 hit.setdefault(f, set()).add(int(n))
         return [s for s in self.stmts if not (hit.get(s["path"], set()) & set(range(s["line"], s["end"] + 1)))]
+
+    _COND = {"POP_JUMP_IF_FALSE", "POP_JUMP_IF_TRUE", "POP_JUMP_IF_NONE", "POP_JUMP_IF_NOT_NONE", "FOR_ITER"}
+
+    def one_sided(self):
+        """conditional jumps inside new statements (asserts excluded) that were executed but always went
+        the same way: [{file, qualname, line, src, observed}]; [] if nothing to report or not measured"""
+        import dis
+        if not self.stmts or not os.path.exists(self.log):
+            return []
+        seen = {}
+        lines_hit = {}
+        for l in open(self.log):
+            if l.startswith("B|"):
+                _, path, qual, first, src, dst = l.rstrip("\n").split("|")
+                seen.setdefault((path, qual, int(first), int(src)), set()).add(int(dst))
+            else:
+                f, _, n = l.strip().rpartition(":")
+                if n.isdigit():
+                    lines_hit.setdefault(f, set()).add(int(n))
+        out = []
+        by_path = {}
+        for s in self.stmts:
+            if s.get("kind") != "Assert":
+                by_path.setdefault(s["path"], []).append(s)
+        for path, sts in by_path.items():
+            try:
+                top = compile(open(path, encoding="utf-8").read(), path, "exec")
+            except Exception:
+                continue
+            stack = [top]
+            while stack:
+                code = stack.pop()
+                stack.extend(c for c in code.co_consts if hasattr(c, "co_code"))
+                for ins in dis.get_instructions(code):
+                    if ins.opname not in self._COND:
+                        continue
+                    ln = ins.positions.lineno if ins.positions else None
+                    st = next((s for s in sts if ln is not None and s["line"] <= ln <= s["end"]), None)
+                    if st is None:
+                        continue
+                    if not (lines_hit.get(path, set()) & set(range(st["line"], st["end"] + 1))):
+                        continue  # statement never executed: already reported as such
+                    obs = seen.get((path, code.co_qualname, code.co_firstlineno, ins.offset), set())
+                    if len(obs) < 2:
+                        out.append({"file": st["file"], "path": path, "qualname": st["qualname"], "line": ln,
+                                    "src": st["src"], "observed": len(obs), "opname": ins.opname})
+        # one entry per (line, qualname)
+        uniq = {}
+        for o in out:
+            uniq.setdefault((o["path"], o["line"]), o)
+        return list(uniq.values())
 
 
 def files_under(rel):
@@ -310,7 +384,7 @@ if __name__ == "__main__":
     # maintainer command: record the baseline for the whole package
     snap = snapshot(["okdmr/dmrlib"])
     snap = {f: h for f, h in snap.items() if "/tests/" not in f}
-    snap["__stmts__"] = {f: {q: [k for k, _, _ in sts] for q, sts in stmts_of(os.path.join(repo_root(), f)).items()} for f in snap}
+    snap["__stmts__"] = {f: {q: [t[0] for t in sts] for q, sts in stmts_of(os.path.join(repo_root(), f)).items()} for f in snap}
     import subprocess
     snap["__head__"] = subprocess.run(["git", "-C", repo_root(), "rev-parse", "HEAD"], capture_output=True, text=True).stdout.strip()
     with open(BASE, "w") as f:
